@@ -509,8 +509,8 @@ std::string sqf::parser::preprocessor::impl_default::instance::handle_arg(::sqf:
                 auto res = try_get_macro(word);
                 if (res.has_value())
                 {
-                    if (res.value().is_callable())
-                    {
+                    if (res.value().is_callable() && !part_of_word)
+                    { // (a word that ends the argument has no character after it to give back)
                         local_fileinfo.move_back();
                     }
                     auto handled = handle_macro(runtime, local_fileinfo, original_fileinfo, res.value(), param_map);
